@@ -24,12 +24,16 @@ pub const O_ERR_HICKUP: u8 = 7;
 pub const O_ERR_UNRECOVERABLE: u8 = 8;
 pub const O_PANIC: u8 = 9;
 pub const O_MISMATCH: u8 = 10;
+pub const O_ERR_OTHER: u8 = 11;
 
 pub fn err_code(e: &DltParseError) -> u8 {
     match e {
         DltParseError::IncompleteParse { .. } => O_ERR_INCOMPLETE,
         DltParseError::ParsingHickup(_) => O_ERR_HICKUP,
         DltParseError::Unrecoverable(_) => O_ERR_UNRECOVERABLE,
+        // a variant this harness does not know: its own class (never equal to a known one)
+        #[allow(unreachable_patterns)]
+        _ => O_ERR_OTHER,
     }
 }
 pub fn code_name(c: u8) -> &'static str {
